@@ -129,7 +129,7 @@ def run(chk):
         if ms != [','.join(s) for s in small]:
             chk.mismatch('enumeration of small sets', 'cat_small_sets', 'model and harness enumerate differently')
     closure = {s: set().union(*[desc[a] for a in s]) if s else set() for s in small}
-    full = chk.tier == 'thorough' or bool(b.drift) or not b.proof_ok
+    full = chk.tier == 'thorough' or bool(b.drift) or not b.proof_ok or not b.modelrun_ok
     inc_sets = small if full else small[:60] + [small[i] for i in range(60, len(small), 5)]
     m_valid = model.batch([('cat_valid_row', [','.join(s)]) for s in inc_sets]) if model else None
     nviol = 0
